@@ -269,7 +269,9 @@ async fn pump_output_stream(
 
         let (preview, _truncated, _used) =
             super::logs::truncate_utf8(chunk, max_preview_bytes.min(super::OUTPUT_EVENT_MAX_BYTES));
-        if preview.is_empty() {
+        // A chunk whose preview is empty (preview limit 0, or a read that starts inside a
+        // multi-byte character) still carries the reference to its byte range in the log.
+        if preview.is_empty() && artifacts.is_none() {
             continue;
         }
 
